@@ -188,6 +188,7 @@ def finish(prop, ctx, t0, tier, explanation, assumptions, extra=None, replay_key
     for o in known:
         print("KNOWN-FINDING: property=%s %s at %s: %s" % (prop, o.key, o.where, findings[(prop, o.key)]))
 
+    no_ev = os.environ.get("LSV_NO_EVIDENCE") == "1"
     os.makedirs(os.path.join(VERIF, "evidence"), exist_ok=True)
     os.makedirs(os.path.join(VERIF, "replay"), exist_ok=True)
     rc = 0
@@ -195,6 +196,8 @@ def finish(prop, ctx, t0, tier, explanation, assumptions, extra=None, replay_key
     if new:
         rc = 1
         replay_path = os.path.join(VERIF, "replay", "%s.json" % prop)
+        if no_ev:
+            replay_path = os.devnull
         with open(replay_path, "w") as fh:
             json.dump({"property": prop, "repo": facts.meta.get("repo"),
                        "source_hash": facts.meta.get("source_hash"),
@@ -253,6 +256,7 @@ def finish(prop, ctx, t0, tier, explanation, assumptions, extra=None, replay_key
         "wall_s": round(time.time() - t0, 2),
         "violations": len(new),
     }
-    with open(os.path.join(VERIF, "evidence", "%s.json" % prop), "w") as fh:
-        json.dump(ev, fh, indent=1, sort_keys=False)
+    if not no_ev:
+        with open(os.path.join(VERIF, "evidence", "%s.json" % prop), "w") as fh:
+            json.dump(ev, fh, indent=1, sort_keys=False)
     return rc
